@@ -569,6 +569,7 @@ func (c *Ctx) c05Flags() {
 	}
 	c.c05KillOnEveryPath()
 	c.c05CancelKillsTheTreeFirst()
+	c.c05MarkedRunningBeforeAnythingThatMayBlock()
 	// P6 monitor goroutine
 	if f := c.fn(spPkg, "(*subprocessMonitoring).runProcessMonitoring"); f != nil {
 		var body *ssa.Function
@@ -811,4 +812,68 @@ func (c *Ctx) c05CancelKillsTheTreeFirst() {
 	if n == 0 {
 		c.violate("P10", "subprocess/cancel-kills-the-tree-first", "", "no exec.Cmd.Cancel is set in package subprocess any more: a cancelled context only kills the direct child")
 	}
+}
+
+// c05MarkedRunningBeforeAnythingThatMayBlock (P12): "every instant of the stop relative to the spawn". stop() looks at
+// IsOn() before it does anything: from the moment the process exists until Start() has stored isRunning=true, a Stop() —
+// or the Stop() of the monitoring goroutine after a cancellation — returns at once and kills nothing (after a cancellation
+// the leader is then never waited for). That window must not contain calls into caller-supplied code: the messaging object
+// writes to the caller's loggers, which may take arbitrarily long. Decided: in Start(), no call on the messaging object can
+// be followed by the store of true into isRunning (the calls on the failing paths, which return, are fine).
+func (c *Ctx) c05MarkedRunningBeforeAnythingThatMayBlock() {
+	c.rule("P12", "Start() marks the subprocess as running before it calls into the messaging object (the caller's loggers): no messaging call lies between the spawn and the mark", 1)
+	f := c.fnOpt(spPkg, "(*Subprocess).Start")
+	if f == nil {
+		return
+	}
+	c.FuncsSeen[fname(f)] = true
+	var marks []ssa.Instruction
+	var msgs []*ssa.Call
+	var spawn *ssa.Call
+	allInstrs(f, func(in ssa.Instruction) {
+		cl, ok := in.(*ssa.Call)
+		if !ok {
+			return
+		}
+		if calleeFull(&cl.Call) == "(*go.uber.org/atomic.Bool).Store" && len(cl.Call.Args) >= 2 {
+			if b, isB := constBool(cl.Call.Args[1]); isB && b {
+				if fa, ok := cl.Call.Args[0].(*ssa.FieldAddr); ok {
+					if so := structOf(fa.X.Type()); so != nil && so.Field(fa.Field).Name() == "isRunning" {
+						marks = append(marks, cl)
+					}
+				}
+			}
+			return
+		}
+		if g := staticCallee(&cl.Call); g != nil && g.Signature.Recv() != nil && strings.Contains(g.Signature.Recv().Type().String(), "subprocessMessaging") {
+			msgs = append(msgs, cl)
+		}
+		if g := staticCallee(&cl.Call); g != nil && g.Name() == "Start" && g.Signature.Recv() != nil && strings.Contains(g.Signature.Recv().Type().String(), "cmdWrapper") {
+			spawn = cl
+		}
+	})
+	if spawn != nil {
+		// only what can come after the spawn matters: before it there is no process to stop
+		var after []*ssa.Call
+		for _, m := range msgs {
+			if pathAvoiding(spawn, func(ssa.Instruction) bool { return false }, func(i ssa.Instruction) bool { return i == ssa.Instruction(m) }) != nil {
+				after = append(after, m)
+			}
+		}
+		msgs = after
+	}
+	if len(marks) == 0 {
+		c.violate("P12", fname(f)+"/marked-running-first", c.pos(f.Pos()), "Start() never marks the subprocess as running: Stop() and the monitoring never act on it")
+		return
+	}
+	bad := ""
+	for _, m := range msgs {
+		for _, mk := range marks {
+			if pathAvoiding(m, func(ssa.Instruction) bool { return false }, func(i ssa.Instruction) bool { return i == mk }) != nil {
+				bad = c.ipos(m) + " (" + staticCallee(&m.Call).Name() + ") before " + c.ipos(mk)
+			}
+		}
+	}
+	c.check(bad == "", "P12", fname(f)+"/marked-running-first", c.ipos(marks[0]), "no call on the messaging object can be followed by the store of true into isRunning",
+		"the process exists but is not yet marked as running while Start() calls into the caller's loggers ("+bad+"): a Stop(), or the monitoring goroutine after a cancellation, arriving while such a logger is busy finds IsOn() false, returns at once and kills nothing — the tree keeps running after Stop() returned, or the leader is never waited for")
 }
